@@ -59,7 +59,7 @@ def spec_text(kind, n, origins, prefill, threads, after, segs):
     return "\n".join(lines) + "\n"
 
 
-def search(kind, n, origins, prefill, threads, after, segs, symptom, max_runs=400):
+def search(kind, n, origins, prefill, threads, after, segs, symptom, max_runs=400, grid=48):
     """runs the model schedule natively; if the symptom does not show, perturbs the segment counts (the model counts visible
     operations, the hooks sit before statements -- the two can differ by one here and there). symptom(history) -> str | None"""
     ok, err = build()
@@ -83,13 +83,19 @@ def search(kind, n, origins, prefill, threads, after, segs, symptom, max_runs=40
     for i, j in itertools.combinations(range(len(base)), 2):
         for d1 in deltas[:3]:
             for d2 in deltas[:3]:
-                if tried >= max_runs:
-                    found, why2, rounds = stress(kind, n, origins, prefill, threads, after, symptom)
-                    if found: return found, "", tried + rounds
-                    return None, "symptom not reproduced natively in %d controlled runs; %s" % (tried, why2), tried
+                if tried >= max_runs: break
                 sg = [list(x) for x in base]; sg[i][1] = max(0, sg[i][1] + d1); sg[j][1] = max(0, sg[j][1] + d2)
                 s, h = attempt(sg)
                 if s: return {"segments": sg, "history": h, "symptom": s}, "", tried
+    # grid over the first two context switches (the model counts visible operations, the hooks sit before statements: the two
+    # counts can drift apart over a long segment); the remaining segments run their thread to completion, in the model's order
+    if len(base) >= 2 and grid > 0:
+        rest = [[t, 1000] for t, _ in base[2:]]
+        order = sorted(((a, b2) for a in range(0, grid) for b2 in range(0, grid)), key=lambda ab: abs(ab[0] - base[0][1]) + abs(ab[1] - base[1][1]))
+        for a, b2 in order:
+            sg = [[base[0][0], a], [base[1][0], b2]] + rest
+            s, h = attempt(sg)
+            if s: return {"segments": sg, "history": h, "symptom": s}, "", tried
     found, why2, rounds = stress(kind, n, origins, prefill, threads, after, symptom)
     if found: return found, "", tried + rounds
     return None, "symptom not reproduced natively in %d controlled runs; %s" % (tried, why2), tried
